@@ -97,7 +97,7 @@ class C14(PropBase):
                         for op in OPS[:4]:
                             cases.append({"op": op, "g": g, "S": S})
         if shard == 0:
-            for g in GG.corpus_graphs():
+            for g in GG.corpus_graphs(acyclic_only=False):
                 g = {k: g[k] for k in ("nodes", "dir", "bid")}
                 for op in OPS:
                     cases.append(self._mk(rng, op, g))
